@@ -42,6 +42,7 @@ class Prop(object):
                     for revoked in (False, True):
                         u.append(('config', {'key': kname, 'strength': strength, 'hash': h, 'expired': expired, 'revoked': revoked}))
         u.append(('expiry-window', {}))
+        u.append(('duplicates', {}))
         for kname in ('ed25519a', 'ecdsa_p256a', 'rsa2048a'):
             for first in LIVE_MENU:
                 u.append(('live', {'key': kname, 'first': first, 'depth': 3 if tier == 'quick' else 4}))
@@ -138,6 +139,52 @@ class Prop(object):
                 r.viol('results', {'kind': 'incoherent-result', 'issue_values': kinds}, {'n': n, 'first': combo[0], 'only': list(combo)},
                        'entries %r: %s' % ([repr(sl[ix]) for ix in combo], '; '.join(problems)))
         r.samples.append({'entries': [repr(sl[ix]) for ix in combos[-1]]})
+        return r
+
+    def c_duplicates(self, case):
+        """One signature packet standing under two subjects of the same key (a self-certification copied onto another user id, a subkey binding copied onto
+        another subkey): both places are examined, each is listed once, the copy is wrong where it does not belong."""
+        import pgpy
+        from pgpy.constants import KeyFlags
+        from refpgp import wire
+        r = Res()
+        for kname in ('ed25519a', 'ecdsa_p384a', 'rsa2048a'):
+            key, raw = K.pgpy_cert(kname, uid='Alice Dup <dup@example.org>', subkeys=[('cv25519a', {KeyFlags.EncryptCommunications}), ('cv25519b', {KeyFlags.EncryptCommunications})])
+            pk = wire.read_packets(bytes(key.pubkey))
+            if [p['tag'] for p in pk] != [6, 13, 2, 14, 2, 14, 2]:
+                raise A.HarnessBinding('unexpected export layout %r' % [p['tag'] for p in pk])
+            mal = wire.packet(13, b'Mallory <mallory@example.org>')
+            layouts = {
+                'untouched': ([p['raw'] for p in pk], 3, 0),
+                'certification copied onto a second user id': ([pk[0]['raw'], pk[1]['raw'], pk[2]['raw'], mal, pk[2]['raw']] + [p['raw'] for p in pk[3:]], 4, 1),
+                'certification copied onto a user id standing first': ([pk[0]['raw'], mal, pk[2]['raw'], pk[1]['raw'], pk[2]['raw']] + [p['raw'] for p in pk[3:]], 4, 1),
+                'binding of the first subkey copied onto the second': ([p['raw'] for p in pk[:6]] + [pk[4]['raw']], 3, 1),
+                'binding of the first subkey standing under both': ([p['raw'] for p in pk] + [pk[4]['raw']], 4, 1),
+            }
+            for name, (parts, n_examined, n_bad) in layouts.items():
+                for form in ('imported', 're-imported'):
+                    r.states += 1
+                    r.transitions += 1
+                    probs = []
+                    try:
+                        k = pgpy.PGPKey.from_blob(b''.join(parts))[0]
+                        if form == 're-imported':
+                            k = pgpy.PGPKey.from_blob(bytes(k))[0]
+                        sv = k.verify(k)
+                        good, bad = list(sv.good_signatures), list(sv.bad_signatures)
+                        if len(sv) != n_examined or len(good) + len(bad) != len(sv):
+                            probs.append('%d signatures stand in the key, the result lists %d (good %d, bad %d)' % (n_examined, len(sv), len(good), len(bad)))
+                        if len(bad) != n_bad:
+                            probs.append('%d of them are not over the subject they stand under, %d are listed as bad' % (n_bad, len(bad)))
+                        if bool(sv) != (n_bad == 0):
+                            probs.append('result is %s' % ('truthy' if sv else 'falsy'))
+                    except pgpy.errors.PGPError as e:
+                        if n_bad == 0:
+                            probs.append('raised %r' % (e,))
+                    r.outcomes['ok' if not probs else 'violation'] += 1
+                    if probs:
+                        r.viol('duplicates', {'kind': 'copied-signature', 'layout': name.split(' ')[0]}, dict(case), '%s key, %s, %s: %s' % (kname, name, form, '; '.join(probs)))
+        r.samples.append({'layouts': 5, 'keys': 3})
         return r
 
     def c_expiry_window(self, case):
